@@ -52,6 +52,34 @@ def drive (deadline : Nat) (hs : Nat → HsPoll) : List Nat → Option (Outcome 
     | some o => some (o, t)
     | none => drive deadline hs ts
 
+/-! ## Wakers of a pending accept future
+
+A pending `AcceptFut::poll` leaves the caller's waker in two places: the transport the handshake waits
+on and the timeout `Sleep`.  Both keep the waker of the **most recent** poll (the same shape as
+`LocalWaker::register`), so a future that is polled from another task (moved, `select!`,
+`FuturesUnordered`) is owned by that task from then on. -/
+
+structure FutW where
+  deadline : Nat
+  /-- waker of the most recent pending poll (`none`: never polled) -/
+  lastW : Option Nat := none
+  wokenW : Nat → Bool := fun _ => false
+
+/-- poll by task `w` at `now` -/
+def FutW.poll (f : FutW) (w now : Nat) (hs : HsPoll) : FutW × Option Outcome :=
+  match pollFut f.deadline now hs with
+  | some o => (f, some o)
+  | none => ({ f with lastW := some w, wokenW := fun j => if j = w then false else f.wokenW j }, none)
+
+/-- the clock goes from `old` to `new`: a timer whose deadline lies in `(old, new]` fires and wakes the
+registered waker -/
+def FutW.tick (f : FutW) (old new : Nat) : FutW :=
+  if old < f.deadline ∧ f.deadline ≤ new then
+    match f.lastW with
+    | some w => { f with wokenW := fun j => if j = w then true else f.wokenW j }
+    | none => f
+  else f
+
 /-! ## The gate -/
 
 def upd {α : Type} (f : Nat → α) (i : Nat) (v : α) : Nat → α := fun j => if j = i then v else f j
@@ -265,16 +293,24 @@ structure Conn where
   closed : Bool := false
   /-- the accept future has been polled at least once (its wakers are registered) -/
   polled : Bool := false
-  /-- wake flag of the accept future's task -/
-  woken : Bool := false
-deriving Repr
+  /-- the task (waker) that polled the accept future LAST: both the transport the handshake waits on and
+  the timeout `Sleep` keep the waker of the most recent poll, replacing the one stored before -/
+  lastW : Nat := 0
+  /-- wake flags of the tasks that have polled the accept future -/
+  wokenW : Nat → Bool := fun _ => false
+
+/-- the task that owns the future (polled it last) has been woken -/
+def Conn.woken (c : Conn) : Bool := c.wokenW c.lastW
+
+/-- a wake-up through one of the future's registered wakers: it reaches the task that polled last -/
+def Conn.wake (c : Conn) : Conn := { c with wokenW := upd c.wokenW c.lastW true }
 
 /-- what the library's handshake answers when the accept future is polled -/
 def Conn.hsPoll (c : Conn) : HsPoll :=
   if c.closed then .err else if 2 ≤ c.delivered then .ok else if c.spoiled then .err else .pending
 
 /-- delivering bytes (or closing) wakes the accept future's task if it is parked on the transport -/
-def Conn.ioWake (c : Conn) : Conn := { c with woken := c.woken || c.polled }
+def Conn.ioWake (c : Conn) : Conn := if c.polled then c.wake else c
 
 inductive FlightMode where | full | part | rest
 deriving DecidableEq, Repr
@@ -291,7 +327,8 @@ def Conn.cflight (c : Conn) (m : FlightMode) : Conn × Bool :=
 def Conn.garbage (c : Conn) : Conn := { c with spoiled := true }.ioWake
 def Conn.close (c : Conn) : Conn := { c with closed := true }.ioWake
 
-/-- bookkeeping of a server poll -/
-def Conn.afterPoll (c : Conn) : Conn := { c with seen := c.delivered, polled := true, woken := false }
+/-- bookkeeping of a server poll by task `w`: its waker replaces the registered one, its own flag is consumed -/
+def Conn.afterPoll (c : Conn) (w : Nat := 0) : Conn :=
+  { c with seen := c.delivered, polled := true, lastW := w, wokenW := upd c.wokenW w false }
 
 end ActixNet.Tls
